@@ -12,7 +12,8 @@ BOUNDS = {
     'quick': 'molecules of 3 atoms (symbolic adjacency, symbolic per-(pattern, atom) match flags, 2 patterns): every '
              'renumbering of the atoms and either order of presenting matches gives the same descriptors or the same '
              'failure; correction descriptors: a matched pair and its image under index shifts 1, 7, 8, 16 (thorough: every shift; indices < 24), matches '
-             'reported in either order and either direction',
+             'reported in either order and either direction; a six-ring (single/double bonds symbolic per position) aromatised '
+             'identically from every start atom and direction of its atom list',
     'thorough': '3 atoms x 3 patterns, all 6 renumberings; descriptor shifts from every start index',
 }
 STUBS = K.STUBS
@@ -76,8 +77,7 @@ def h_descr_shift(d: bool):
         ms = [(a, b), (b, a)] if order == 0 else [(b, a), (a, b)]
         mk = {'other': [], 'smiles': [], 'smarts': []}
         mk[kind] = ms
-        mol = rf.FMol([rf.FAtom(6) for _ in range(N)], [], matcher=lambda m, q, kw: mk['smarts'] if q == 'q2' else [])
-        clean = rf.FMol([rf.FAtom(6) for _ in range(N)], [], matcher=lambda m, q, kw: mk['smiles'] if q == 'q1' else [])
+        mol, clean = K.descr_mols(mk, N)
         with NoTracing():       # concrete inputs: real CPython set order (see C02.h_descr)
             return dict(K._descr_scheme(mk)._AssignDescriptor(mol, clean))
     try:
@@ -86,6 +86,41 @@ def h_descr_shift(d: bool):
         return finish(False, 'raised:' + type(e).__name__)
     return finish(a == b, 'descr: the count of a correction descriptor depends on atom numbering', (i, j), (i2, j2),
                   sorted(a.items()), sorted(b.items()))
+
+
+def h_ring_start(d: bool):
+    """
+    post: _[0]
+    """
+    begin()
+    import pgradd.GroupAdd.Scheme as SC
+    # the same six-ring (symbolic bond type per position, all carbon) handed over by ring perception starting at two different
+    # atoms / in the two directions must be aromatised identically (how the SMILES is written decides where RDKit starts)
+    types = [rf.BondType.SINGLE, rf.BondType.DOUBLE, rf.BondType.AROMATIC][:PARAM.get('ntypes', 2)]
+    bts = [types[choose('b%d' % k, len(types))] for k in range(6)]
+    s1, s2 = choose('start1', 6), choose('start2', 6)
+    rev = bool(B('reverse'))
+
+    def run(start, reverse):
+        atoms = [rf.FAtom(6) for _ in range(6)]
+        bonds = [rf.FBond(k, (k + 1) % 6, bts[k]) for k in range(6)]
+        ring = [(start + k) % 6 for k in range(6)]
+        if reverse:
+            ring = [ring[0]] + list(reversed(ring[1:]))
+        mol = rf.FMol(atoms, bonds, rings=[tuple(ring)])
+        with NoTracing():
+            saved = SC.Chem
+            SC.Chem = rf.FakeChem()
+            try:
+                SC._aromatization_Benson(mol)
+            finally:
+                SC.Chem = saved
+        return ([str(mol.GetBondBetweenAtoms(k, (k + 1) % 6).GetBondType()) for k in range(6)], [a.aromatic for a in mol.atoms])
+    try:
+        a, b = run(s1, False), run(s2, rev)
+    except Exception as e:
+        return finish(False, 'raised:' + type(e).__name__)
+    return finish(a == b, 'ring: aromatisation of a ring depends on where its atom list starts', [str(t) for t in bts], s1, s2, rev)
 
 
 def signature(ob, param, ret):
@@ -104,6 +139,10 @@ def obligations(tier, seed):
             fix['reverse_match_order'] = rev
             obs.append(dict(name='renumber_n%d_P%d_f%d_r%d' % (n, P, bits, rev), func='h_renumber',
                             param=dict(n=n, P=P, fix=fix), timeout=to))
+    for b0 in range(2 if q else 3):
+        for s1 in range(6):
+            obs.append(dict(name='ring_start_b%d_s%d' % (b0, s1), func='h_ring_start',
+                            param=dict(ntypes=2 if q else 3, fix=dict(b0=b0, start1=s1)), timeout=to))
     for i in range(0, 24, 3 if q else 1):
         obs.append(dict(name='descr_shift_i%d' % i, func='h_descr_shift',
                         param=dict(fix=dict(i=i), shifts=[1, 7, 8, 16] if q else None), timeout=to))
